@@ -89,7 +89,7 @@ fn check(ctx: &mut Ctx, h: &History) -> Result<(), String> {
 }
 
 pub fn run(ctx: &mut Ctx) {
-    ctx.rule = "histories of 2-40 assertions through Client and at the CTAP2 level (there also with up=false / uv=false and a user-validation step that reports exactly what was asked), plus occasional registrations, interleaved over 1-4 pre-loaded credentials on up to 3 RPs, with start counters from {none, 0, 1, 2^31-1, 2^31, 2^32-3, 2^32-2, 2^32-1, random}, targeted by an allow list of one to three held credentials or discovered, on the reference store (capability full / forced discoverable / non-discoverable only), MemoryStore and the Option store, counters for new credentials on/off; plus histories on a shared in-memory map from which another party removes the selected credential while the user is asked. Non-trivial = at least two successful assertions on counted credentials, or at least one with a start value within 2 of the maximum; distinct by history.".into();
+    ctx.rule = "histories of 2-40 assertions through Client and at the CTAP2 level (there also with up=false / uv=false and a user-validation step that reports exactly what was asked), plus occasional registrations, interleaved over 1-4 pre-loaded credentials on up to 3 RPs, with start counters from {none, 0, 1, 2^31-1, 2^31, 2^32-3, 2^32-2, 2^32-1, random}, targeted by an allow list of one to three held credentials or discovered, on the reference store (capability full / forced discoverable / non-discoverable only), MemoryStore and the Option store, counters for new credentials on/off; plus histories on a shared in-memory map from which another party removes the selected credential while the user is asked. Since rounds 7/8: pre-loaded credentials without hmac-secret material, PRF requests independent of the UV requirement, a user who gives what each request asks for, the transports builder after the counter setter; a failed authentication must not move a stored counter backwards. Non-trivial = at least two successful assertions on counted credentials, or at least one with a start value within 2 of the maximum; distinct by history.".into();
     ctx.assumptions = vec![
         "per-credential model: below the maximum each success reports previous+1 and that value is what the store then holds; at the maximum the reported and stored value is not smaller and there is no panic".into(),
         "credentials without counter: report 0, record unchanged, no update call (reference store log)".into(),
